@@ -1209,15 +1209,21 @@ class Model:
                 # if it is an interaction with both categoric and numeric terms
                 if categoric and numeric:
                     numeric_set = set(numeric)
-                    numeric_part = ":".join(numeric)
                     if numeric_set not in numeric_group_sets:
                         numeric_group_sets.append(numeric_set)
                         numeric_groups.append({})
                     idx = numeric_group_sets.index(numeric_set)
                     # Prevent full encoding when numeric part is present outside
-                    # this numeric-categoric interaction
-                    if numeric_part in components:
-                        numeric_groups[idx][numeric_part] = []
+                    # this numeric-categoric interaction, in whatever order it is written
+                    for name, kinds in components.items():
+                        if isinstance(kinds, dict):
+                            same_part = set(kinds) == numeric_set and all(
+                                kind == "numeric" for kind in kinds.values()
+                            )
+                        else:
+                            same_part = kinds == "numeric" and {name} == numeric_set
+                        if same_part:
+                            numeric_groups[idx][name] = []
                     numeric_groups[idx][k] = categoric
 
         return [categoric_group] + numeric_groups
